@@ -188,3 +188,47 @@ func immutableScan(L *Loaded, cs *ContractSet) []structResult {
 	}
 	return out
 }
+
+func init() {
+	// error-table <pkg> <global> CODE=status ...: the constant table built by
+	// the package initialiser is exactly the given one, and the standard
+	// error values carry those codes.
+	structuralHandlers["error-table"] = func(L *Loaded, cs *ContractSet, args []string) []structResult {
+		var out []structResult
+		if len(args) < 3 {
+			return []structResult{{"structural/error-table", false, "bad directive"}}
+		}
+		key := "G_" + sanitize(args[0]+"_"+args[1])
+		got, ok := L.constMaps[key]
+		if !ok {
+			return []structResult{{fmt.Sprintf("%s.%s/constant-table", args[0], args[1]), false, "not a constant table (not built from constants in init, or updated elsewhere)"}}
+		}
+		want := map[string]int64{}
+		for _, a := range args[2:] {
+			kv := strings.SplitN(a, "=", 2)
+			if len(kv) != 2 {
+				continue
+			}
+			var n int64
+			fmt.Sscanf(kv[1], "%d", &n)
+			want[kv[0]] = n
+		}
+		var ks []string
+		for k := range want {
+			ks = append(ks, k)
+		}
+		sort.Strings(ks)
+		for _, k := range ks {
+			g, present := got[k]
+			out = append(out, structResult{fmt.Sprintf("%s.%s/status(%s)==%d", args[0], args[1], k, want[k]), present && g == want[k], fmt.Sprintf("table has %v (present=%v)", g, present)})
+		}
+		extra := true
+		for k := range got {
+			if _, ok := want[k]; !ok {
+				extra = false
+			}
+		}
+		out = append(out, structResult{fmt.Sprintf("%s.%s/no-other-entries", args[0], args[1]), extra && len(got) == len(want), fmt.Sprintf("%d entries", len(got))})
+		return out
+	}
+}
